@@ -58,6 +58,10 @@ Proof.
   destruct B as [B|B]; [left; exact B | right; apply N.eqb_eq; exact B].
 Qed.
 
+(* generated fact: UPDATE_CHECK_AFTER uses the half-open range that RECONCILE_TARGET_DIRS (pinned) uses *)
+Lemma in_tdir_repo g f : in_tdir g f = in_tdir_half_open g f.
+Proof. reflexivity. Qed.
+
 Lemma elev_cases g s : elev g s = after_elev_target \/ elev g s = after_elev_none.
 Proof. unfold elev. destruct (existsb _ _); [left; reflexivity|]. destruct (_ && _); auto. Qed.
 
@@ -120,7 +124,8 @@ Section Reconcile.
         apply in_outputs in Hf. destruct Hf as [d [Hd [Es Ef]]].
         destruct (find_file_some g _ _ Ef) as [Hfin Hfk].
         apply in_or_app. right. unfold reconcile_dirs. apply in_flat_map. exists f.
-        split; [exact Hfin|]. rewrite H. unfold producers_of_node.
+        split; [exact Hfin|]. rewrite <- in_tdir_repo.
+        change (in_tdir (set_targets g ts tds thr) f) with (in_tdir g0 f). rewrite H. unfold producers_of_node.
         apply in_map_iff. exists d. split; [exact Es|]. apply filter_In. split; [exact Hd|].
         apply N.eqb_eq. congruence.
       + (* no elevation at all *)
